@@ -124,6 +124,20 @@ def stepLine (_ : Unit) (line : String) : Unit × String :=
       (match parseRat? trans, parseRat? acq, parseTPAny? tp with
       | some tr, some ac, some t => showV (poolProb Gen.poolBetaField t tr ac)
       | _, _, _ => "bad-op")
+  | ["dtyear", numeric, u, dt] =>
+      (match parseBool? numeric, parseORat? dt with
+      | some nm, some dt => showR (dtYear nm (parseUnit u) dt)
+      | _, _ => "bad-op")
+  | ["recover", dis, m, s, d, k] =>
+      (match parseRat? m, parseRat? s, parseRat? d, parseNat? k with
+      | some m, some s, some d, some k =>
+          let r := if dis = "sis" then some (recoveredAt Gen.sisSchedClock Gen.sisRecoverClock m s d k)
+                   else if dis = "sir" then some (recoveredAt Gen.sirSchedClock Gen.sirRecoverClock m s d k) else none
+          (match r with
+          | some (.ok b) => "ok " ++ showBool b
+          | some (.error e) => showErr e
+          | none => "bad-op")
+      | _, _, _, _ => "bad-op")
   | _ => "bad-op")
 
 def main : IO Unit := mainLoop stepLine ()
